@@ -1094,12 +1094,18 @@ class Authenticated(BaseClientHandler):
                 if attrs & SPECIAL_USE_ATTR_VALUES
             ]
 
-        # Build a set of all returned folder names so we can verify
-        # \HasChildren / \HasNoChildren correctness.
+        # Verify \HasChildren / \HasNoChildren against the mailboxes that
+        # exist. NOTE: This can not be worked out from the returned names:
+        # `LIST "" "%"` does not return the inferior mailboxes.
         #
-        all_names = {name for name, _, _ in results}
         for mbox_name, attributes, child_info in results:
-            has_children = any(n.startswith(mbox_name + "/") for n in all_names)
+            db_name = "inbox" if mbox_name == "INBOX" else mbox_name
+            prefix = db_name + "/"
+            row = await self.server.db.fetchone(
+                "SELECT 1 FROM mailboxes WHERE substr(name, 1, ?) = ? LIMIT 1",
+                (len(prefix), prefix),
+            )
+            has_children = row is not None
             if has_children:
                 attributes.discard(r"\HasNoChildren")
                 attributes.add(r"\HasChildren")
